@@ -187,6 +187,10 @@ def jobs_for(tier, rnd):
     descs += [('start = ' + e + '\n' + PRELUDE, 'shadow-recovery') for e in shadow_recovery_stratum()]
     for cd, name, sh in CLASS_FIXED:
         descs.append((cd + '\nstart = ' + name + '+\n' + PRELUDE, 'class-fixed'))
+    # `requires` given a bare name, a name of an omitted field, and in the middle of a class
+    for cd in ('class Q { let f: Opt("a"); requires f; y: D }', 'class Q { f: /[ab]/; requires `f`; y: Opt(D) }',
+               'class Q { n: N; requires n; xs: "a"{n} }'):
+        descs.append((cd + '\nstart = Q+\n' + PRELUDE, 'class-fixed'))
     while len(descs) < n:
         allow = rnd.random() < 0.25
         descs.append(('start = ' + gen_expr(rnd, rnd.choice([1, 2, 2, 3, 3]), {}, allow) + '\n' + PRELUDE,
